@@ -227,6 +227,8 @@ pub struct Violation {
 /// Counters used to classify cases (non-triviality rules, evidence histograms)
 #[derive(Clone, Debug, Default)]
 pub struct Stats {
+    /// a destructor of a panicking job synchronised with another object while the job was unwinding
+    pub syncs_from_destructors_while_unwinding: u32,
     /// set_backpressure_depth called on a pipe that already exists
     pub depth_changes: u32,
     /// polls performed by inline tasks from inside a waker call
